@@ -24,9 +24,9 @@ import (
 func TestVerifC20(t *testing.T) {
 	vfMain(t, vfCheck{
 		ID: "C20", Level: "fault_enumeration",
-		Rule: "for each of ~45 Client/File operations (single-request calls, composite calls, multi-chunk transfers under both concurrency settings) and each request the operation issues (first 8), the valid reply is replaced by: a well-framed cut at every byte, every 4-byte window replaced by hostile lengths/counts {0,1,n-1,n+1,2^20,2^31-1,2^32-1} (quick: 3 of the 7 per window), each other reply type, a wrong id, random bodies, an over-long DATA. A class is (operation, request index, reply type, mutation kind).",
+		Rule:        "for each of ~45 Client/File operations (single-request calls, composite calls, multi-chunk transfers under both concurrency settings) and each request the operation issues (first 8), the valid reply is replaced by: a well-framed cut at every byte, every 4-byte window replaced by hostile lengths/counts {0,1,n-1,n+1,2^20,2^31-1,2^32-1} (quick: 3 of the 7 per window), each other reply type, a wrong id, random bodies, an over-long DATA. A class is (operation, request index, reply type, mutation kind).",
 		Assumptions: []string{"allocation bound per operation: 64 x bytes received + 3 MiB (client configured with 1 KiB packets and 4 concurrent requests so that legitimate buffers stay small)", "plain build (allocation meter); background panics are attributed through the child journal"},
-		Units: func(tier vfTier, seed uint64) int { return len(c20Ops()) },
+		Units:       func(tier vfTier, seed uint64) int { return len(c20Ops()) },
 		Shards: func(tier vfTier) int {
 			if tier == vfThorough {
 				return 15
@@ -131,7 +131,9 @@ func c20Valid(req vfPkt, readdirCalls *int) vfPkt {
 	fileAttrs := vfAttrs{Flags: 0xF, Size: c20FileSize, UID: 1, GID: 2, Perm: 0o100644, Atime: 1500000000, Mtime: 1500000001}
 	dirAttrs := vfAttrs{Flags: 0xF, Size: 4096, UID: 1, GID: 2, Perm: 0o40755, Atime: 1500000000, Mtime: 1500000001}
 	isDir := func(p string) bool { return p == "/dir" || p == "/" || strings.HasSuffix(p, "/sub") }
-	st := func(code uint32, msg string) vfPkt { return vfPkt{Type: rfStatus, ID: req.ID, Code: code, Msg: msg, Lang: "en"} }
+	st := func(code uint32, msg string) vfPkt {
+		return vfPkt{Type: rfStatus, ID: req.ID, Code: code, Msg: msg, Lang: "en"}
+	}
 	switch req.Type {
 	case rfOpen:
 		if strings.HasPrefix(req.Path, "/missing") {
